@@ -185,6 +185,30 @@ def unseen_helpers(prog, qual):
     return sorted(out)
 
 
+def _generic_memo(ctx):
+    """MEMO for every property: the functions the rules read, plus the
+    helpers they call that the reference tree does not know, must not carry
+    state from one call to the next (a result that depends on what the
+    process did before is not a function of the inputs any more)."""
+    if any(o.get("rule", "").endswith("no-cross-call-state")
+           for o in ctx.obligations):
+        return
+    from .memo import check_no_cross_call_state
+    prog = ctx.prog
+    quals = set(q for q in ctx.analysed_funcs if q in prog.funcs)
+    work = list(quals)
+    while work:
+        q = work.pop()
+        for h in unseen_helpers(prog, q):
+            if h not in quals:
+                quals.add(h)
+                work.append(h)
+    funcs = [prog.funcs[q] for q in sorted(quals)]
+    if funcs:
+        check_no_cross_call_state(
+            ctx, f"{ctx.prop}-no-cross-call-state", funcs, "run")
+
+
 def finish(ctx: Ctx, t0: float, explanation: str, technique: str,
            only_key: str | None = None) -> int:
     known = load_known()
@@ -298,6 +322,7 @@ def run_check(prop: str, tier: str, seed: int, rule_fn, explanation: str,
         prog.build_callgraph()
         ctx = Ctx(prop, tier, seed, prog)
         rule_fn(ctx)
+        _generic_memo(ctx)
         only = None
         if replay:
             rec = json.loads(Path(replay).read_text())
